@@ -7,6 +7,9 @@ package caldav
 // (see /verif/findings/run.sh).
 
 import (
+	"context"
+	"fmt"
+	"net/http/httptest"
 	"strings"
 	"testing"
 	"time"
@@ -107,5 +110,70 @@ func TestFindingC16DateWithUTCTimeZone(t *testing.T) {
 	}
 	if !time.Time(out).Equal(in) {
 		t.Fatalf("instant %v became %v on the wire (%s)", in, time.Time(out), b)
+	}
+}
+
+// ---------------------------------------------------------------------------------------------
+// C13: malformed requests must be answered 4xx, never 5xx
+
+type findingsBackend struct{ puts, deletes, creates int }
+
+func (b *findingsBackend) CalendarHomeSetPath(ctx context.Context) (string, error) {
+	return "/user/calendars/", nil
+}
+func (b *findingsBackend) CurrentUserPrincipal(ctx context.Context) (string, error) {
+	return "/user/", nil
+}
+func (b *findingsBackend) CreateCalendar(ctx context.Context, c *Calendar) error { b.creates++; return nil }
+func (b *findingsBackend) ListCalendars(ctx context.Context) ([]Calendar, error) {
+	return []Calendar{{Path: "/user/calendars/a/"}}, nil
+}
+func (b *findingsBackend) GetCalendar(ctx context.Context, path string) (*Calendar, error) {
+	return &Calendar{Path: path}, nil
+}
+func (b *findingsBackend) GetCalendarObject(ctx context.Context, path string, req *CalendarCompRequest) (*CalendarObject, error) {
+	return nil, fmt.Errorf("no such object")
+}
+func (b *findingsBackend) ListCalendarObjects(ctx context.Context, path string, req *CalendarCompRequest) ([]CalendarObject, error) {
+	return nil, nil
+}
+func (b *findingsBackend) QueryCalendarObjects(ctx context.Context, path string, query *CalendarQuery) ([]CalendarObject, error) {
+	return nil, nil
+}
+func (b *findingsBackend) PutCalendarObject(ctx context.Context, path string, calendar *ical.Calendar, opts *PutCalendarObjectOptions) (*CalendarObject, error) {
+	b.puts++
+	return &CalendarObject{Path: path}, nil
+}
+func (b *findingsBackend) DeleteCalendarObject(ctx context.Context, path string) error {
+	b.deletes++
+	return nil
+}
+
+func findingsReport(t *testing.T, body string) int {
+	t.Helper()
+	req := httptest.NewRequest("REPORT", "/user/calendars/a/", strings.NewReader(body))
+	req.Header.Set("Content-Type", "application/xml")
+	w := httptest.NewRecorder()
+	h := Handler{Backend: &findingsBackend{}}
+	h.ServeHTTP(w, req)
+	return w.Result().StatusCode
+}
+
+func TestFindingC13MultigetInvalidExpandDate(t *testing.T) {
+	code := findingsReport(t, `<C:calendar-multiget xmlns:D="DAV:" xmlns:C="urn:ietf:params:xml:ns:caldav">
+<D:prop><C:calendar-data><C:expand start="yesterday" end="20240102T000000Z"/></C:calendar-data></D:prop>
+<D:href>/user/calendars/a/x.ics</D:href></C:calendar-multiget>`)
+	if code < 400 || code > 499 {
+		t.Fatalf("calendar-multiget with an invalid expand date answered %d, want 4xx", code)
+	}
+}
+
+func TestFindingC13QueryContradictoryCompFilter(t *testing.T) {
+	code := findingsReport(t, `<C:calendar-query xmlns:D="DAV:" xmlns:C="urn:ietf:params:xml:ns:caldav">
+<D:prop><D:getetag/></D:prop>
+<C:filter><C:comp-filter name="VCALENDAR"><C:comp-filter name="VEVENT"><C:is-not-defined/><C:prop-filter name="UID"/></C:comp-filter></C:comp-filter></C:filter>
+</C:calendar-query>`)
+	if code < 400 || code > 499 {
+		t.Fatalf("calendar-query with is-not-defined plus a nested filter answered %d, want 4xx", code)
 	}
 }
